@@ -88,7 +88,9 @@ func smartDateParseWrapper(format string, tz *time.Location, dateStage KeyBuilde
 				if err != nil {
 					return ErrorParsing
 				}
-				if strTime != emptyTime {
+				// Nor must anything static analysis evaluates the stage with through a sub-context, eg. the
+				// "2020-01-" of {ts "2020-01-{0}"} where ts is a user-defined function {time {0}}
+				if strTime != emptyTime && !InStaticAnalysis(context) {
 					atomicFormat.Store(liveFormat)
 				}
 			}
